@@ -89,6 +89,12 @@ var kinds = []entryKind{
 				d.Partitions[1] = ring.PartitionDesc{Id: 1, Tokens: []uint32{5, 55}, State: want, StateTimestamp: now.Unix()}
 				return d, true
 			}
+			if seq%3 == 0 {
+				// an operator locks the partition's state; the removal that follows must still win everywhere
+				if d.UpdatePartitionStateChangeLock(1, true, now) {
+					return d, true
+				}
+			}
 			if ok, _ := d.UpdatePartitionState(1, want, now); !ok {
 				return nil, false
 			}
@@ -364,8 +370,12 @@ func runScript(t *testing.T, run *vt.Run, c vt.CaseID, rng *rand.Rand, exhaustiv
 				return false
 			}
 			// did the local update take effect (a same-second refresh is a no-op)
-			v, _ := net.Client(node, k.codec).Get(context.Background(), k.key)
-			_ = v
+			// the stamp the model tracks is the entry's own (a write that only sets a partition's lock leaves it alone)
+			if v, _ := net.Client(node, k.codec).Get(context.Background(), k.key); !remove && v != nil {
+				if p, ts, tomb := k.extract(v); p && !tomb {
+					u = &upd{ts, false}
+				}
+			}
 			s.merge(node, u)
 			if remove {
 				s.removed, s.lastRm = true, time.Now()
